@@ -198,6 +198,30 @@ CHECKS = {
              'call on its own K.',
         note='trusted: wrapping every Op subclass eval from outside counts node evaluations; probe calls are the host-visible effects',
         design='4/C01'),
+    'C07': dict(
+        engine='E2',
+        technique='type-directed exhaustive enumeration of programs (every production x leaves, one nested level, every statement form) '
+                  'x two host mappings; real eval vs reference interpreter (value, names, error class, node-evaluation count)',
+        text='Every production of a typed grammar over all operators, index / slice forms, conditionals, lambdas and ~40 builtins is '
+             'instantiated with every leaf of each hole type and with any depth-1 term in one hole, and wrapped in ~60 statement / program '
+             'templates (assignment forms, container mutation on program and host objects, lambdas incl. dynamic scoping, failing leaves); '
+             'each program runs under two host mappings on the real evaluator and on an independent reference interpreter over exact '
+             'decimals; outcome class, value (exact rationals + printed form), host names afterwards and the operation count must agree. '
+             'Cases the (partial) model leaves undefined are counted and not compared.',
+        note='trusted: mc/model/refeval.py, refparse.py, exactnum.py',
+        design='4/C07'),
+    'C10': dict(
+        engine='E3',
+        technique='explicit-state BFS over statement sequences about one name bound at every level, run as separate evals and as one '
+                  'program; real eval vs the scope model of the reference interpreter + scope-stack / builtin-table invariants after '
+                  'every eval',
+        text='Every sequence up to depth 2/3 (+1 over 14 statements) of 56 statements around the single name `len` - builtin key, host '
+             'binding (absent / number / None), assignment target, lambda parameter, local of host-built multi-statement bodies - with '
+             'direct, nested, dynamic-scope, recursive calls, calls through map/filter/reduce/sorted and through re-entrant and '
+             'error-swallowing host callbacks, and raising bodies; values, errors and host names afterwards must match the scope model, '
+             'and after every eval the scope stack must be [builtins, host names] and the builtin table untouched.',
+        note='trusted: mc/model/refeval.py scope model; the VM state handed to the tracer exposes the scope stack',
+        design='4/C10'),
 }
 
 NOT_YET = {}
